@@ -107,6 +107,111 @@ json.dump(runs, open(sys.argv[2], "w"))
 '''
 
 
+INTER = r'''
+import json, sys, threading, operator
+from lsprotocol import types as t
+at = int(sys.argv[1])
+OPS = {"lt": operator.lt, "le": operator.le, "gt": operator.gt, "ge": operator.ge, "eq": operator.eq, "ne": operator.ne}
+def run(op, a, b):
+    try:
+        r = OPS[op](a, b)
+    except Exception as e:
+        return "Other:" + type(e).__name__
+    return "T" if r is True else "F" if r is False else "NonBool:" + repr(r)
+paused, resume = threading.Event(), threading.Event()
+count = [0]
+def tracer(frame, event, arg):
+    if not frame.f_code.co_filename.endswith("types.py"):
+        return None
+    def local(frame, event, arg):
+        if event == "line":
+            count[0] += 1
+            if count[0] == at:
+                paused.set()
+                resume.wait(10)
+        return local
+    return local
+def pos(p): return t.Position(line=p[0], character=p[1])
+def rng(r): return t.Range(start=pos(r[0]), end=pos(r[1]))
+def first():
+    # the FIRST comparisons of the three classes in this process, suspended after the at-th line of types.py
+    a, b = pos((1, 5)), pos((1, 3))
+    ra, rb = rng(((0, 0), (0, 1))), rng(((0, 0), (1, 0)))
+    sys.settrace(tracer)
+    try:
+        a > b
+        ra == rb
+        t.Location(uri="file:///a", range=ra) == t.Location(uri="file:///a", range=rb)
+    except Exception:
+        pass
+    finally:
+        sys.settrace(None)
+        paused.set()
+th = threading.Thread(target=first, daemon=True)
+th.start()
+paused.wait(10)
+out = []
+for c in json.load(open(sys.argv[2])):
+    ev = dict(c)
+    if c["k"] == "pos":
+        a, b = pos(c["pa"]), pos(c["pb"])
+        for op in OPS: ev[op] = run(op, a, b)
+        ev["repr"] = repr(a)
+    elif c["k"] == "range":
+        a, b = rng(c["ra"]), rng(c["rb"])
+        for op in ("eq", "ne"): ev[op] = run(op, a, b)
+        ev["repr"] = repr(a)
+    else:
+        a = t.Location(uri=c["la"]["uri"], range=rng(c["la"]["r"]))
+        b = t.Location(uri=c["lb"]["uri"], range=rng(c["lb"]["r"]))
+        for op in ("eq", "ne"): ev[op] = run(op, a, b)
+        ev["repr"] = repr(a)
+    out.append(ev)
+resume.set()
+th.join(10)
+json.dump(out, open(sys.argv[3], "w"))
+'''
+
+INTER_CASES = [{"k": "pos", "pa": [1, 5], "pb": [1, 3]}, {"k": "pos", "pa": [0, 1], "pb": [1, 0]}, {"k": "pos", "pa": [2, 2], "pb": [2, 2]},
+               {"k": "range", "ra": [[0, 0], [0, 1]], "rb": [[0, 0], [1, 0]]}, {"k": "range", "ra": [[0, 0], [0, 1]], "rb": [[0, 0], [0, 1]]},
+               {"k": "loc", "la": {"uri": "file:///a", "r": [[0, 0], [0, 1]]}, "lb": {"uri": "file:///a", "r": [[0, 0], [1, 0]]}},
+               {"k": "loc", "la": {"uri": "file:///a", "r": [[0, 0], [0, 1]]}, "lb": {"uri": "file:///b", "r": [[0, 0], [0, 1]]}}]
+
+
+def interleaved(rep, tier, work):
+    """A second thread compares while the FIRST comparison of the process is suspended after its k-th line of types.py
+    (whatever the classes prepare lazily on first use is then half done); judged by PositionOrder.tla like any case."""
+    import concurrent.futures as cf
+    n = 40 if tier == "quick" else 200
+    cp = os.path.join(work, "inter-cases.json")
+    json.dump(INTER_CASES, open(cp, "w"))
+    env = dict(os.environ, PYTHONPATH=os.path.join(common.REPO, "packages", "python"))
+
+    def one(k):
+        op = os.path.join(work, "inter-%d.json" % k)
+        subprocess.run([common.PY, "-c", INTER, str(k), cp, op], env=env, stdout=subprocess.PIPE, stderr=subprocess.PIPE, timeout=120)
+        return json.load(open(op)) if os.path.exists(op) else []
+    with cf.ThreadPoolExecutor(max_workers=common.NCPU) as ex:
+        results = list(ex.map(one, range(1, n + 1)))
+    trace, where = [], []
+    for k, evs in enumerate(results, 1):
+        for ev in evs:
+            trace.append(ev)
+            where.append(k)
+    if not trace:
+        raise common.MachineryError("the interleaved comparison runs produced no events")
+    tp = os.path.join(work, "inter-trace.json")
+    json.dump(trace, open(tp, "w"))
+    rc, out = common.run_tlc("PositionOrder", "CONSTANTS NEvents = %d\nINIT TInit\nNEXT Step\nPOSTCONDITION AllConsumed\nCHECK_DEADLOCK FALSE\n" % len(trace), env={"POS_TRACE": tp})
+    if '"@DONE' not in out:
+        raise common.MachineryError("PositionOrder.tla did not consume the interleaved trace:\n" + out[-2000:])
+    for f in common.tagged_lines(out, "@F"):
+        ev = trace[f["l"] - 1]
+        for clause in f["c"]:
+            rep.violation({"clause": clause, "kind": "interleaved:" + ev["k"]}, dict(ev, suspended_after_line=where[f["l"] - 1]))
+    return {"suspension_points": n, "events": len(trace)}
+
+
 def machine(rep, tier, work):
     """Histories of assignments and comparisons on two live Position objects (PositionMachine.tla):
     TLC enumerates them, the harness replays each on real objects, TLC replays the trace on its own state."""
@@ -179,6 +284,7 @@ def check(tier):
                 key = {"clause": clause, "kind": ev["k"] + (":" + ev["fk"] if ev["k"] == "foreign" else "")}
                 rep.violation(key, ev)
         mach = machine(rep, tier, work)
+        inter = interleaved(rep, tier, work)
     finally:
         import shutil
         shutil.rmtree(work, ignore_errors=True)
@@ -201,7 +307,7 @@ def check(tier):
     for c in cases:
         bykind[c["k"]] = bykind.get(c["k"], 0) + 1
     rep.coverage.update({"states": distinct, "transitions": gen, "traces_validated_against_impl": len(trace),
-                         "cases_by_kind": bykind, "machine": mach, "tlaps_order_lemmas": tl, "random_pairs": nrand, "exhaustive": True,
+                         "cases_by_kind": bykind, "machine": mach, "interleaved_first_comparison": inter, "tlaps_order_lemmas": tl, "random_pairs": nrand, "exhaustive": True,
                          "rule": "all pairs over the grid {0,1,2,2^31-2,2^31-1}^2 (625) x 6 operators + repr; 256 range pairs; location pairs; foreign operands; plus seeded random position pairs; order lemmas (trichotomy, transitivity) of the oracle checked by TLC on the grid; PositionMachine.tla: every history of assignments / comparisons / Range-Location comparisons of the stated length on two live objects from 2 initial states, replayed on real objects and validated step by step",
                          "samples": trace[:2] + trace[-2:]})
     rep.assumptions = ["the harness only calls operators / repr on the public classes and records the outcome", "TLC evaluates Lex and ToString faithfully"]
